@@ -78,7 +78,9 @@ def alInsert {β} : List (Tag × β) → Tag → β → List (Tag × β)
   | [], t, v => [(t, v)]
   | (k, x) :: r, t, v => if k = t then (k, v) :: r else (k, x) :: alInsert r t v
 
-def alErase {β} (l : List (Tag × β)) (t : Tag) : List (Tag × β) := l.filter (fun p => p.1 ≠ t)
+def alErase {β} : List (Tag × β) → Tag → List (Tag × β)
+  | [], _ => []
+  | (k, x) :: r, t => if k = t then alErase r t else (k, x) :: alErase r t
 
 def alKeys {β} (l : List (Tag × β)) : List Tag := l.map (·.1)
 
